@@ -1,6 +1,7 @@
 import MetapypeModel.Lemmas.NsFrame
 import MetapypeModel.Lemmas.NsVisible
 import MetapypeModel.Lemmas.NsFix
+import MetapypeModel.Lemmas.NsFixCells
 /-
   C13 — namespace operations stay inside the subtree they are applied to.
   Stated on the heap model with shared dict cells (Model/NsHeap.lean), for EVERY heap — arbitrary
@@ -249,6 +250,13 @@ example :
 
 /-! ### the bulk repair helper `Node.fix_nsmap` -/
 
+/-- 0 → 1 → 2 is a chain, 3 is unrelated; node 1 binds `a ↦ u2`, cell 2 holds `a ↦ u1` -/
+def fixLeakHeapBase : NsHeap :=
+  { kids := fun a => if a = 0 then [1] else if a = 1 then [2] else [],
+    ns := fun a => a,
+    cell := fun r => if r = 1 then [("a", "u2")] else if r = 2 then [("a", "u1")] else [],
+    next := 4 }
+
 /-- `fix_nsmap(n)` for every heap and every recursion budget: the child lists are untouched and every node outside the
     subtree of `n` keeps the very dict object it held (pointer-level frame).  This is the part of the isolation clause
     that holds of the helper unconditionally; `_partial` because the helper also writes *in place* into dict objects
@@ -261,6 +269,27 @@ theorem C13_fix_frame_partial (fuel : Nat) (H : NsHeap) (n : Nat) :
   have h := fixNs_pframed fuel H n none none (fun r h => by cases h)
   ⟨h.kids_eq, h.outside, h.next_le⟩
 
+/-- cell-level isolation of `fix_nsmap(n)`, for every heap, every child relation and every budget: a node `m` outside the subtree
+    that holds a dict object which NO node of the subtree (the node `n` included) holds sees exactly the bindings it saw before.
+    Every write of the helper goes to an object allocated during the call or to one a subtree node held at the start
+    (`fixNs_wstep`).  `_partial`: the hypothesis also excludes an outside node sharing the object of `n` itself (the usual
+    state of `n`'s parent after an attach with equal maps); on tree-shaped child relations the object of `n` is never written
+    either, which the oracle checks on every explored state but which is not proved. -/
+theorem C13_fix_isolated_partial (fuel : Nat) (H : NsHeap) (hr : RefsOK H) (n m : Nat)
+    (hm : ¬ Reach H.kids n m) (hsh : ∀ x, Reach H.kids n x → H.ns x ≠ H.ns m) :
+    (fixNs fuel H n none none).nsmapOf m = H.nsmapOf m := by
+  have hp := fixNs_pframed fuel H n none none (fun r h => by cases h)
+  have hw := fixNs_wstep (K := H.kids) (n0 := n) (base := H.next) (W := fun r => ∃ x, Reach H.kids n x ∧ H.ns x = r)
+    fuel H n none none ⟨rfl, Nat.le_refl _, fun x hx => Or.inl ⟨x, hx, rfl⟩⟩ (Reach.refl n) (fun r h => by cases h)
+  simp only [NsHeap.nsmapOf]
+  rw [hp.outside m hm]
+  exact hw.cells (H.ns m) (hr m) (fun ⟨x, hx, e⟩ => hsh x hx e)
+
+/-- the hypotheses of `C13_fix_isolated_partial` are satisfiable on a heap where the call does real work: in `fixLeakHeap`
+    with node 3 given an object of its own the call rewrites node 2's binding and node 3 is untouched -/
+example : (fixNs 5 { fixLeakHeapBase with ns := fun a => a } 0 none none).nsmapOf 2 = [("a", "u2")] ∧
+    (fixNs 5 { fixLeakHeapBase with ns := fun a => a } 0 none none).nsmapOf 3 = [] := by decide
+
 /-- the recursion budget exhausted, or a node without children: `fix_nsmap` at the entry call does nothing at all
     (the node's own map is only ever rewritten from its parent's) -/
 theorem C13_fix_leaf (fuel : Nat) (H : NsHeap) (n : Nat) (hk : H.kids n = []) : fixNs fuel H n none none = H := by
@@ -270,11 +299,7 @@ theorem C13_fix_leaf (fuel : Nat) (H : NsHeap) (n : Nat) (hk : H.kids n = []) : 
 
 /-- a four-node heap: 0 → 1 → 2 is a chain, 3 is unrelated; node 2 and node 3 hold the SAME dict object (cell 2, `a ↦ u1`,
     as `set_nsmap` with one object on two nodes leaves it), node 1 binds `a ↦ u2` -/
-def fixLeakHeap : NsHeap :=
-  { kids := fun a => if a = 0 then [1] else if a = 1 then [2] else [],
-    ns := fun a => if a = 3 then 2 else a,
-    cell := fun r => if r = 1 then [("a", "u2")] else if r = 2 then [("a", "u1")] else [],
-    next := 4 }
+def fixLeakHeap : NsHeap := { fixLeakHeapBase with ns := fun a => if a = 3 then 2 else a }
 
 /-- the cell-level isolation clause is FALSE of `fix_nsmap` when a dict object is shared across the subtree boundary:
     `fix_nsmap(node 0)` rewrites `a` in place in the object node 2 holds, and the unrelated node 3 sees it.  The same
